@@ -59,6 +59,13 @@ Proof. exact C16_return_text_holds. Qed.
 Check C16_return_text : forall p p' t f t', TInv t -> execute t f = Ok t' -> holds_C16_return_text (mkVt p t) f (mkVt p' t') = true.
 Print Assumptions C16_return_text.
 
+From Avt Require Import Oracles.C16List Proofs.C16List.
+(** Oracles/C16List.v, Proofs/C16List.v: a return INSIDE A MODE LIST (CSI ? 1049 ; 6 l, CSI ? 47 ; 25 l): the cursor that decides where the parked primary may be cut is the one in force at the moment of the return (the alternate screen's for 47 / 1047, the saved one for 1049), whatever the later, non-switching elements of the list do to the cursor afterwards; everything above that cursor's logical line and before the cursor in it survives (seeded change C16_8) *)
+Theorem C16_return_list : forall p p' t f t', TInv t -> execute t f = Ok t' -> holds_C16_return_list (mkVt p t) f (mkVt p' t') = true.
+Proof. exact C16_return_list_holds. Qed.
+Check C16_return_list : forall p p' t f t', TInv t -> execute t f = Ok t' -> holds_C16_return_list (mkVt p t) f (mkVt p' t') = true.
+Print Assumptions C16_return_list.
+
 (** the ?1049l clause of C16_resized_statement for every scrollback limit *)
 Theorem C16_resized_1049_every_limit : forall p' t t', TInv t -> active t = Alternate -> execute t (Decrst [SaveCursorAltScreenBuffer]) = Ok t' -> resize_preserves (other t) (sc_col (saved_of t Primary)) (sc_row (saved_of t Primary)) (buf t') (cur_col t') (cur_row t') = true /\ holds_C02_state (mkVt p' t') = true.
 Proof. exact C16_resized_1049_any_limit. Qed.
